@@ -32,7 +32,8 @@ STEP_UNIT = 'history operations (render, failed render, restart, copy, edit, fil
 CHUNK = 16      # consecutive runs per forked child (core.worker)
 CASE_TIMEOUT = 300
 TIERS = {'quick': (48000, 170), 'thorough': (2000000, 2400)}
-PROBES = ['file_template_munged_to_other_file', 'render_after_restart', 'render_after_munge',
+PROBES = ['file_template_munged_to_other_file',
+          'file_template_munged_to_same_file', 'render_after_restart', 'render_after_munge',
           'render_after_failed_render', 'render_after_other_inputs',
           'render_after_deepcopy', 'restart_mid_render',
           'sort_expr_differs_between_renders', 'bytes_text_mix_after_restart',
@@ -872,6 +873,11 @@ def run_case(case):
                 if is_file:
                     if newd is not None:
                         t.munge(None, dict(newd))
+                    elif j % 2:
+                        # re-edit naming the same file again (its content
+                        # may have changed meanwhile): read again
+                        t.munge(state['fname'])
+                        probe('file_template_munged_to_same_file')
                     else:
                         t.munge()
                 else:
